@@ -227,6 +227,8 @@ class ProgGen:
             ks += ["incbin"]
         if p.text:
             ks += ["text"] * 2
+            if depth > 0:
+                ks += ["table"]  # a body that selects a character table of its own (for the rest of that body)
         ks += ["label"] * 3
         if p.self_pointers:
             ks += ["selfptr"] * 2
@@ -569,6 +571,8 @@ class ProgGen:
                 for _ in range(rng.randint(1, 8)):
                     parts.append(rng.choice(["a", "b", "ab", "the ", "~", "Z", "?", " ", "[0x7f]", "[0x1]", "abc", "x", "\u00e9", "\u00df\u00e9", "\u6f22", "\u00fc", "\t", "  "]))
                 out.append({"k": "text", "s": "".join(parts)})
+            elif k == "table":
+                out.append({"k": "table", "f": rng.choice(["t1.tbl", "t1.tbl", "t0.tbl"])})
             elif k == "incbin":
                 self.n_file += 1
                 f = f"bin{self.n_file}.dat"
@@ -730,6 +734,7 @@ class ProgGen:
         ir = list(head)
         if self.p.text:
             self.files["t0.tbl"] = "01=a\n02=b\n03=ab\n10=the \nF0F1=~\n0405=abc\n20= \n30=\u00e9\n3132=\u00df\u00e9\n33=\u6f22\n"
+            self.files["t1.tbl"] = "81=a\n82=b\n90=the \nA0A1A2=~\n84=abc\n8520=  \nB0=\u00e9\n"
             ir.append({"k": "table", "f": "t0.tbl"})
         if self.usermap:
             ir = [{"k": "map", "spec": sp} for sp in self.usermap] + ir
